@@ -13,6 +13,23 @@ use specs::prelude::*;
 
 use crate::engine::{parse_case, run_proptest, ShardCtx, ShardResult, Stats, SubCheck, Tier, Verdict, Violation};
 
+/// Every entity gets one component in each of two storages (value = index and generation), so that the
+/// purge of bulk deletions is observable (C05).
+#[derive(Debug, PartialEq, Clone, Copy)]
+pub struct BwVec(pub u64);
+impl Component for BwVec {
+    type Storage = VecStorage<Self>;
+}
+#[derive(Debug, PartialEq, Clone, Copy)]
+pub struct BwDense(pub u64);
+impl Component for BwDense {
+    type Storage = DenseVecStorage<Self>;
+}
+
+fn val(e: Entity) -> u64 {
+    ((e.id() as u64) << 32) | e.gen().id() as u32 as u64
+}
+
 #[derive(Debug, Clone, Hash, Serialize, Deserialize)]
 pub struct Round {
     /// Entities created in this round.
@@ -25,7 +42,8 @@ pub struct Round {
     pub del_hi: u16,
     /// Every `stride`-th entity of the range is deleted.
     pub stride: u8,
-    /// 0 = one delete_entities batch, 1 = Entities::delete each (atomic), 2 = delete_entity each, 3 = delete_all
+    /// 0 = one delete_entities batch (ascending, reversed or interleaved order), 1 = Entities::delete each (atomic),
+    /// 2 = delete_entity each, 3 = delete_all, 4 = one batch with a dead handle three quarters in (fails there)
     pub del_how: u8,
     pub maintain_after_create: bool,
     pub maintain_after_delete: bool,
@@ -43,7 +61,7 @@ pub fn strategy(max_create: u16, max_rounds: usize) -> impl Strategy<Value = Big
         any::<u16>(),
         any::<u16>(),
         1u8..=4,
-        prop_oneof![6 => Just(0u8), 3 => Just(1u8), 2 => Just(2u8), 1 => Just(3u8)],
+        prop_oneof![6 => Just(0u8), 3 => Just(1u8), 2 => Just(2u8), 1 => Just(3u8), 3 => Just(4u8)],
         any::<bool>(),
         prop_oneof![3 => Just(true), 1 => Just(false)],
     )
@@ -66,6 +84,7 @@ pub struct BigFacts {
     pub max_used: usize,
     pub reuse: u64,
     pub mass_deletion_then_creation: bool,
+    pub failing_batch_late: bool,
 }
 
 struct Model {
@@ -145,6 +164,25 @@ fn check_world(world: &World, m: &Model, merged: bool, out: &mut Vec<Violation>)
             break;
         }
     }
+    // C05: components exactly on the entities that are not yet dead (a requested deletion keeps them
+    // until maintain), each with its own value
+    {
+        let sv = world.read_storage::<BwVec>();
+        let sd = world.read_storage::<BwDense>();
+        let holders = m.occupant.len();
+        if sv.count() != holders || sd.count() != holders {
+            out.push(Violation::new("C05", "component-count", format!(
+                "{} entities are not yet dead but the storages hold {} / {} components", holders, sv.count(), sd.count())));
+        } else {
+            for e in m.live.iter().step_by(7) {
+                if sv.get(*e) != Some(&BwVec(val(*e))) || sd.get(*e) != Some(&BwDense(val(*e))) {
+                    out.push(Violation::new("C05", "component-changed", format!(
+                        "{:?} holds {:?} / {:?}, expected its own value {}", e, sv.get(*e), sd.get(*e), val(*e))));
+                    break;
+                }
+            }
+        }
+    }
     if merged {
         let joined: Vec<Entity> = (&ents).join().collect();
         let set: HashSet<Entity> = joined.iter().copied().collect();
@@ -172,6 +210,8 @@ fn check_world(world: &World, m: &Model, merged: bool, out: &mut Vec<Violation>)
 pub fn run_case(case: &BigCase) -> Result<BigFacts, Violation> {
     let mut facts = BigFacts::default();
     let mut world = World::new();
+    world.register::<BwVec>();
+    world.register::<BwDense>();
     let mut m = Model {
         live: vec![],
         ever: HashSet::new(),
@@ -213,6 +253,20 @@ pub fn run_case(case: &BigCase) -> Result<BigFacts, Violation> {
         if had_mass_deletion && n > 0 {
             facts.mass_deletion_then_creation = true;
         }
+        {
+            let mut sv = world.write_storage::<BwVec>();
+            let mut sd = world.write_storage::<BwDense>();
+            for e in &created {
+                if sv.get(*e).is_some() || sd.get(*e).is_some() {
+                    out.push(Violation::new("C05", "new-entity-has-component", format!("the new entity {:?} already has a component", e)));
+                    break;
+                }
+                if sv.insert(*e, BwVec(val(*e))).is_err() || sd.insert(*e, BwDense(val(*e))).is_err() {
+                    out.push(Violation::new("C02", "live-insert-refused", format!("insert for the just created {:?} was refused", e)));
+                    break;
+                }
+            }
+        }
         for e in created {
             on_created(&mut m, e, &mut out, &mut facts);
         }
@@ -237,6 +291,53 @@ pub fn run_case(case: &BigCase) -> Result<BigFacts, Violation> {
             had_mass_deletion = true;
         }
         let vset: HashSet<Entity> = victims.iter().copied().collect();
+        // the order of a batch is the caller's business
+        let mut victims = victims;
+        if r.del_how == 0 || r.del_how == 4 {
+            match r.stride % 3 {
+                0 => victims.reverse(),
+                2 => {
+                    let (a, b): (Vec<(usize, Entity)>, Vec<(usize, Entity)>) = victims.iter().cloned().enumerate().partition(|(k, _)| k % 2 == 0);
+                    victims = a.into_iter().chain(b).map(|(_, e)| e).collect();
+                }
+                _ => {}
+            }
+        }
+        let mut victims = victims;
+        if r.del_how == 4 {
+            // a dead handle three quarters into the batch: exactly the handles before it die
+            if let (Some(stale), true) = (m.dead.last().copied(), victims.len() >= 2) {
+                let p = victims.len() * 3 / 4;
+                let mut batch = victims.clone();
+                batch.insert(p, stale);
+                match world.delete_entities(&batch) {
+                    Err((err, pos)) => {
+                        if pos != p || err.entity != stale {
+                            out.push(Violation::new("C02", "failing-batch-position", format!(
+                                "delete_entities of {} handles with the dead {:?} at position {} reported position {} / entity {:?}", batch.len(), stale, p, pos, err.entity)));
+                        }
+                    }
+                    Ok(()) => out.push(Violation::new("C02", "failing-batch-accepted", format!("delete_entities accepted a batch containing the dead {:?}", stale))),
+                }
+                facts.failing_batch_late |= p >= 4096;
+                victims.truncate(p);
+            } else if let Err(err) = world.delete_entities(&victims) {
+                out.push(Violation::new("C02", "live-batch-rejected", format!("delete_entities of live handles failed: {:?}", err)));
+            }
+            let vset: HashSet<Entity> = victims.iter().copied().collect();
+            m.dead.extend(victims.iter().copied());
+            for e in &victims {
+                m.occupant.remove(&e.id());
+            }
+            m.live.retain(|e| !vset.contains(e));
+            if r.maintain_after_delete {
+                world.maintain();
+                merge_model(&mut m);
+            }
+            check_world(&world, &m, r.maintain_after_delete && m.pending_dead.is_empty(), &mut out);
+            settle(&mut out, &mut deferred)?;
+            continue;
+        }
         match r.del_how {
             0 => {
                 if let Err(err) = world.delete_entities(&victims) {
@@ -321,6 +422,9 @@ fn run_one(case: &BigCase, stats: &mut Stats) -> Verdict {
     if facts.mass_deletion_then_creation {
         stats.label("mass_deletion_then_creation");
     }
+    if facts.failing_batch_late {
+        stats.label("failing_batch_position_ge_4096");
+    }
     stats.case(case, facts.max_used >= 4096 && facts.mass_deletion_then_creation);
     Ok(())
 }
@@ -343,7 +447,7 @@ pub fn sub() -> SubCheck {
         shards: |t: Tier| t.pick(4, 8),
         run,
         replay,
-        rule: "proptest rounds of bulk creation (0..=6000 quick / 0..=20000 thorough entities per round through create_iter, Entities::create_iter, Entities::create, create_entity) and bulk deletion of a generated range/stride of the live list (one batch, atomic deletes, delete_entity each, delete_all) with generated maintains, closed by delete_all + two re-creation rounds; light model (handle set, occupant map, running peak): every handle new with a larger generation than its index's previous one, no shared index, index < peak, fresh index only when all used are occupied, is_alive of every live/dead handle, entity join == live set, allocator self-check; non-trivial = >= 4096 indices in use and a creation after a deletion of >= 1000 entities",
+        rule: "proptest rounds of bulk creation (0..=6000 quick / 0..=20000 thorough entities per round through create_iter, Entities::create_iter, Entities::create, create_entity; every entity gets a component in a VecStorage and a DenseVecStorage) and bulk deletion of a generated range/stride of the live list (one batch in ascending / reversed / interleaved order, a batch with a dead handle three quarters in, atomic deletes, delete_entity each, delete_all) with generated maintains, closed by delete_all + two re-creation rounds; light model (handle set, occupant map, running peak): every handle new with a larger generation than its index's previous one, no shared index, index < peak, fresh index only when all used are occupied, is_alive of every live/dead handle, failing batches report the position of the dead handle and kill exactly the prefix, entity join == live set, component counts == not-yet-dead entities with their own values, new entities start without components, allocator self-check; non-trivial = >= 4096 indices in use and a creation after a deletion of >= 1000 entities",
         exe_env: None,
     }
 }
